@@ -143,13 +143,14 @@ def fqn (path : List Str) (name : Str) : Str := pathStr (path ++ [name])
 /-- the name under which pydap files a root-level declaration is the bare name -/
 def keyOf (path : List Str) (name : Str) : Str := if path = [] then name else fqn path name
 
-/-- declared variables in document order (depth first), each with its group path -/
+/-- declared variables in document order (depth first), each with its group path **as pydap stores it**:
+    every group name quoted (`_quote`; `g h` is the group `g%20h`).  The variable's own name stays as declared. -/
 def specVars (path : List Str) : Spec → List (List Str × SVar)
   | .nil => []
   | .dim _ _ rest => specVars path rest
   | .var v rest => (path, v) :: specVars path rest
   | .attr _ rest => specVars path rest
-  | .group n body rest => specVars (path ++ [n]) body ++ specVars path rest
+  | .group n body rest => specVars (path ++ [quoteName n]) body ++ specVars path rest
 
 /-- declared dimensions: group path, name, size -/
 def declDims (path : List Str) : Spec → List (List Str × Str × Nat)
@@ -166,23 +167,29 @@ def hasGroup : Spec → Bool
   | .attr _ rest => hasGroup rest
   | .group _ _ _ => true
 
-def plainChar (c : Char) : Bool := c.isAlphanum || c = '_' || c = '-'
+/-- one component of a path: non-empty, no `/` (dimension names: they are never quoted) -/
+def segName (n : Str) : Prop := n ≠ [] ∧ '/' ∉ n
 
-/-- names of groups, variables and dimensions: non-empty, letters, digits, `_`, `-` -/
-def plainName (n : Str) : Prop := n ≠ [] ∧ ∀ c ∈ n, plainChar c = true
+/-- names of groups and variables: any non-empty byte string (the UTF-8 bytes of the name: blanks, brackets, `.`,
+    `&`, `%`, non-ASCII, … included) without `/` that does not start with `dap4` (the prefix `_quote` passes
+    through on purpose, C12) -/
+def goodName (n : Str) : Prop :=
+  n ≠ [] ∧ '/' ∉ n ∧ (∀ c ∈ n, c.toNat < 256) ∧ n.take 4 ≠ ['d', 'a', 'p', '4']
 
 def SVar.ok (v : SVar) : Prop :=
-  v.tag ∈ varTags ∧ plainName v.name ∧ (∀ a ∈ v.attrs, a.ok) ∧ (v.attrs.map (·.name)).Nodup
+  v.tag ∈ varTags ∧ goodName v.name ∧ (∀ a ∈ v.attrs, a.ok) ∧ (v.attrs.map (·.name)).Nodup
 
 /-- local well-formedness of every declaration -/
 def Spec.ok : Spec → Prop
   | .nil => True
-  | .dim n _ rest => plainName n ∧ rest.ok
+  | .dim n _ rest => segName n ∧ rest.ok
   | .var v rest => v.ok ∧ rest.ok
   | .attr a rest => a.ok ∧ rest.ok
-  | .group n body rest => plainName n ∧ body.ok ∧ rest.ok
+  | .group n body rest => goodName n ∧ body.ok ∧ rest.ok
 
-/-- what parsing must return for a declared variable -/
+/-- what parsing must return for a declared variable (`path`: its group path as stored, see `specVars`):
+    `key` = the name it is filed under in `variables` (quoted group path + declared name; the dataset stores
+    `_quote(key)`), `name` = the declared name, `path` = the quoted group path -/
 def expectVar (path : List Str) (v : SVar) : VarRec :=
   { key := keyOf path v.name
     name := v.name
@@ -200,7 +207,8 @@ def refsResolve (s : Spec) : Prop :=
   ∀ pv ∈ specVars [] s, ∀ fq sz, SDim.named fq sz ∈ pv.2.dims →
     ∃ d ∈ declDims [] s, fq = fqn d.1 d.2.1 ∧ sz = (d.2.2 : Int)
 
-/-- no two declarations share a fully qualified name -/
+/-- no two declarations share a fully qualified name (variables: quoted group path + declared name, the key
+    of `get_variables`; dimensions: as declared) -/
 def distinctVars (s : Spec) : Prop := ((specVars [] s).map fun pv => fqn pv.1 pv.2.name).Nodup
 def distinctDims (s : Spec) : Prop := ((declDims [] s).map fun d => fqn d.1 d.2.1).Nodup
 
